@@ -22,7 +22,7 @@ import mergecommon as mc
 ID = 'C09'
 TITLE = 'Merging with kept identifiers is a first-wins union that loses nothing'
 GEN = ['MergeDispatch']
-RULE = ('each case = 1..4 generated datasets over a shared pool of sensor ids / timestamps / image names (so that keys overlap), '
+RULE = ('in 30% of the multi-input cases one input mounts a sensor on a sub-rig of a rig and a later input mounts it on that rig directly; each case = 1..4 generated datasets over a shared pool of sensor ids / timestamps / image names (so that keys overlap), '
         'every part independently present or missing in each input, 30% of the multi-input cases hold a later input that lists exactly what an earlier one lists (same keys, other file bytes), a random skip list, a transfer strategy among '
         'skip/copy/link_absolute/link_relative/move, per-input tar or directory storage of each feature kind, through '
         'merge_keep_ids or the merge tool; distinct non-trivial = distinct cases in which at least one key is defined by two inputs')
@@ -57,6 +57,24 @@ def gen_case(rng, tier):
         if rng.random() < 0.15:
             d['sensors'] = d['sensors']    # sensors are needed on disk; keep
         dsets.append(d)
+    if n >= 2 and rng.random() < 0.3:
+        # an earlier input mounts a sensor on a SUB-RIG of a rig (car holds head, head holds the camera); a later input mounts the
+        # same sensor on the rig DIRECTLY: (car, camera) is an entry no earlier input defines, the union must keep it
+        i = rng.randrange(0, n - 1)
+        j = rng.randrange(i + 1, n)
+        a, b = dsets[i], dsets[j]
+        sids = [sid for sid in a['sensors'] if sid not in (b['rigs'] or {})]
+        if sids:
+            x = rng.choice(sids)
+            pose = {'r': [kgen.H(1.0), kgen.H(0.0), kgen.H(0.0), kgen.H(0.0)], 't': [kgen.H(0.5), kgen.H(0.0), kgen.H(0.25)]}
+            outer, inner = 'rig_car', 'rig_head'
+            if all(r not in a['sensors'] and r not in b['sensors'] for r in (outer, inner)):
+                a['rigs'] = dict(a['rigs'] or {})
+                a['rigs'].setdefault(outer, {})[inner] = pose
+                a['rigs'].setdefault(inner, {})[x] = pose
+                b['sensors'].setdefault(x, dict(a['sensors'][x]))
+                b['rigs'] = dict(b['rigs'] or {})
+                b['rigs'].setdefault(outer, {})[x] = pose
     if n >= 2 and rng.random() < 0.3:
         # a later input lists exactly the images, features and match pairs of an earlier one (a re-processed copy of the same
         # capture): every data file exists in both, with different bytes (files are salted per input) - the merge must take
